@@ -2,6 +2,7 @@ package main
 
 import (
 	"bufio"
+	"context"
 	"fmt"
 	"os"
 	"os/exec"
@@ -11,7 +12,12 @@ import (
 	"time"
 
 	"github.com/criyle/go-sandbox/container"
+	"github.com/criyle/go-sandbox/pkg/forkexec"
 	"github.com/criyle/go-sandbox/pkg/mount"
+	"github.com/criyle/go-sandbox/ptracer"
+	"github.com/criyle/go-sandbox/runner"
+	"github.com/criyle/go-sandbox/runner/ptrace"
+	"github.com/criyle/go-sandbox/runner/unshare"
 )
 
 func init() {
@@ -27,6 +33,36 @@ func c16Controller(args []string) {
 		// a traced program with signal-ignoring descendants
 		runPtraceProbe(RunSpec{Script: "ignore 15;ignore 1;fork;ignore 15;fork;sleep 30000;endfork;sleep 30000;endfork;sleep 30000;exit 0", Filter: tracingFilter(), Timeout: 40 * time.Second,
 			SyncFunc: func(pid int) error { fmt.Printf("PROG %d\n", pid); os.Stdout.Sync(); return nil }})
+	case "ptrace-insync", "unshare-insync":
+		// the controller is killed DURING the synchronisation: the launched child waits for the answer of the callback.
+		// The program's descriptors are the controller's own 0,1,2, so that the descriptor shuffle needs no scratch numbers
+		// (nothing of the launcher's table is overwritten by accident)
+		pf := openProbe()
+		sync := func(pid int) error {
+			fmt.Printf("PROG %d\n", pid)
+			os.Stdout.Sync()
+			time.Sleep(40 * time.Second)
+			return nil
+		}
+		ctx, cancel := context.WithTimeout(context.Background(), 40*time.Second)
+		defer cancel()
+		if mode == "ptrace-insync" {
+			(&ptrace.Runner{Args: []string{"probe", "sleep 30000;exit 0"}, Env: []string{}, ExecFile: pf.Fd(), Files: []uintptr{0, 1, 2}, Seccomp: tracingFilter(), Handler: allowHandler{}, Limit: bigLimit, SyncFunc: sync}).Run(ctx)
+		} else {
+			(&unshare.Runner{Args: []string{"probe", "sleep 30000;exit 0"}, Env: []string{}, ExecFile: pf.Fd(), Files: []uintptr{0, 1, 2}, Limit: bigLimit, SyncFunc: sync}).Run(ctx)
+		}
+	case "tracer-noseccomp", "tracer-seccomp":
+		// the tracer used directly on a launcher with ptrace and WITHOUT a seccomp filter (the tracee's first stop is then
+		// the trap of its exec, not its own SIGSTOP); the program ignores signals and has forked descendants
+		pf := openProbe()
+		devnull, _ := os.Open(os.DevNull)
+		fr := &forkexec.Runner{Args: []string{"probe", "ignore 15;ignore 1;fork;ignore 15;fork;sleep 30000;endfork;sleep 30000;endfork;sleep 30000;exit 0"}, Env: []string{},
+			ExecFile: pf.Fd(), Files: []uintptr{devnull.Fd(), devnull.Fd(), devnull.Fd()}, Ptrace: true}
+		if mode == "tracer-seccomp" {
+			fr.Seccomp = allowAll().SockFprog()
+		}
+		t := ptracer.Tracer{Handler: c16Allow{}, Runner: c16Announce{fr}, Limit: runner.Limit{TimeLimit: time.Hour, MemoryLimit: 1 << 40}}
+		t.Trace(context.Background())
 	case "build-initcmd":
 		// the init runs a long init command during conf: it is not reading its socket meanwhile
 		newEnv(container.Builder{InitCommand: []string{"/bin/sleep", "30"},
@@ -75,6 +111,21 @@ func c16Controller(args []string) {
 	}
 }
 
+type c16Allow struct{}
+
+func (c16Allow) Handle(*ptracer.Context) ptracer.TraceAction { return ptracer.TraceAllow }
+func (c16Allow) Debug(v ...interface{})                      {}
+
+// c16Announce reports the pid of the launched program as soon as the launcher returns
+type c16Announce struct{ r *forkexec.Runner }
+
+func (a c16Announce) Start() (int, error) {
+	pid, err := a.r.Start()
+	fmt.Printf("PROG %d\n", pid)
+	os.Stdout.Sync()
+	return pid, err
+}
+
 func procsInPidNs(ns string) []int {
 	var out []int
 	ents, _ := os.ReadDir("/proc")
@@ -117,7 +168,7 @@ func procsInGroup(pgid int) []int {
 }
 
 func runC16(res *Result, d *Driver, tier string, seed uint64) {
-	res.Rule = "a helper controller process (this binary) builds a container / starts a traced program whose descendants ignore signals, reports the init pid, its pid namespace and the program pid; the harness SIGKILLs the controller when it announces a protocol point (verif delay-point announcements on its stderr: host.execve.sent, host.waitForDone, container.started via the init's stderr) and at random instants, for idle / Execve (sync before and after exec) / file operations / ptrace; " +
+	res.Rule = "a helper controller process (this binary) builds a container / starts a traced program whose descendants ignore signals, reports the init pid, its pid namespace and the program pid; the harness SIGKILLs the controller when it announces a protocol point (verif delay-point announcements on its stderr: host.execve.sent, host.waitForDone, container.started via the init's stderr) and at random instants, for idle / Execve (sync before and after exec) / file operations / ptrace; during the synchronisation callback of a ptrace and of a namespace launch; and for the tracer used directly on a launcher with and without a seccomp filter; " +
 		"afterwards no process of the container's pid namespace, resp. of the traced program's process group, may be alive within the bound. non-trivial = every case; distinct = (mode, kill point)."
 	rng := NewRng(seed, "C16", 1)
 	self, _ := os.Executable()
@@ -132,6 +183,9 @@ func runC16(res *Result, d *Driver, tier string, seed uint64) {
 	for k := 0; k < 8; k++ {
 		cases = append(cases, kc{"ptrace", "after-sync"})
 	}
+	for k := 0; k < 2; k++ {
+		cases = append(cases, kc{"ptrace-insync", "in-sync"}, kc{"unshare-insync", "in-sync"}, kc{"tracer-noseccomp", "after-start"}, kc{"tracer-seccomp", "after-start"})
+	}
 	for _, p := range []string{"host.execve.sent", "host.waitForDone"} {
 		cases = append(cases, kc{"execve", p}, kc{"execve-syncafter", p})
 	}
@@ -142,6 +196,7 @@ func runC16(res *Result, d *Driver, tier string, seed uint64) {
 	const bound = 10 * time.Second
 	for rep := 0; rep < reps; rep++ {
 		for _, c := range cases {
+			isPt := c.mode == "ptrace" || strings.HasSuffix(c.mode, "-insync") || strings.HasPrefix(c.mode, "tracer-")
 			cmd := exec.Command(self, "c16-controller", c.mode)
 			cmd.Env = append(os.Environ(), "VERIF_ANNOUNCE=1")
 			so, _ := cmd.StdoutPipe()
@@ -177,7 +232,7 @@ func runC16(res *Result, d *Driver, tier string, seed uint64) {
 					case len(f) == 2 && f[0] == "PROG":
 						progPid, _ = strconv.Atoi(f[1])
 						seenProg++
-					case len(f) == 2 && f[0] == "VP" && f[1] == c.point && (initPid > 0 || c.mode == "ptrace"):
+					case len(f) == 2 && f[0] == "VP" && f[1] == c.point && (initPid > 0 || isPt):
 						if rng.Chance(50) || seenProg > 1 {
 							time.Sleep(time.Duration(rng.Intn(3000)) * time.Microsecond)
 							cmd.Process.Kill()
@@ -198,11 +253,21 @@ func runC16(res *Result, d *Driver, tier string, seed uint64) {
 						}
 						cmd.Process.Kill()
 						killed = true
+					} else if c.point == "in-sync" && progPid > 0 {
+						time.Sleep(time.Duration(rng.Intn(20)) * time.Millisecond)
+						cmd.Process.Kill()
+						killed = true
+					} else if c.point == "after-start" && progPid > 0 {
+						time.Sleep(time.Duration(200+rng.Intn(200)) * time.Millisecond) // the descendants exist by then
+						cmd.Process.Kill()
+						killed = true
+					} else if c.point == "in-sync" || c.point == "after-start" {
+						randomKill = time.After(5 * time.Millisecond)
 					} else if c.point == "after-sync" && progPid > 0 {
 						time.Sleep(time.Duration(rng.Intn(1500)) * time.Microsecond)
 						cmd.Process.Kill()
 						killed = true
-					} else if c.point == "random" && (initPid > 0 || progPid > 0 || c.mode == "ptrace") {
+					} else if c.point == "random" && (initPid > 0 || progPid > 0 || isPt) {
 						cmd.Process.Kill()
 						killed = true
 					} else if c.point == "random" {
@@ -225,8 +290,11 @@ func runC16(res *Result, d *Driver, tier string, seed uint64) {
 				if initPid > 0 && pidAlive(initPid) {
 					left = append(left, initPid)
 				}
-				if progPid > 0 && c.mode == "ptrace" {
+				if progPid > 0 && isPt {
 					left = append(left, procsInGroup(progPid)...)
+					if pidAlive(progPid) && !containsInt(left, progPid) {
+						left = append(left, progPid)
+					}
 				}
 				if len(left) == 0 {
 					break
@@ -262,11 +330,20 @@ func runC16(res *Result, d *Driver, tier string, seed uint64) {
 					syscall.Kill(p, syscall.SIGKILL)
 				}
 			}
-			if (initPid == 0 && c.mode != "ptrace") || (c.mode == "ptrace" && progPid == 0 && c.point == "random") {
+			if (initPid == 0 && !isPt) || (isPt && progPid == 0) {
 				res.Note("controller %s was killed before it reported its pids (case counted as trivial)", key)
 			}
 		}
 	}
 	res.Sample("execve kill@host.waitForDone: controller SIGKILLed while a program with signal-ignoring descendants runs => pid namespace empty within the bound")
 	_ = d
+}
+
+func containsInt(l []int, x int) bool {
+	for _, v := range l {
+		if v == x {
+			return true
+		}
+	}
+	return false
 }
